@@ -14,9 +14,9 @@ from .lib import *
 REQUIRED_WITNESSES = ['single-field-injective', 'stream-recorded']
 BOUNDS = {
     'quick': 'two rows of the same or of different signed kinds (node, reference, node tombstone, reference tombstone); fixed fields fully symbolic (16-byte ids, 64-bit dates, '
-             '33-byte keys), variable fields symbolic byte strings of <= 20 bytes (text fields printable ASCII, non-empty where verify() demands it), every presence '
+             '33-byte keys), variable fields symbolic byte strings of <= 20 bytes (40 for cross-kind pairs) (text fields printable ASCII, non-empty where verify() demands it), every presence '
              'combination of the optional fields explored for the boundary classes listed in the evidence',
-    'thorough': 'same with variable fields <= 40 bytes and every presence combination for every pair of kinds',
+    'thorough': 'same with every presence combination of the optional node fields (variable fields <= 24 bytes for node/node pairs, <= 40 for the others)',
 }
 ASSUMPTIONS = [
     'blake3 is ideal (injective on byte streams); Ed25519 is ideal (a signature verifies for exactly the key and digest it was made for)',
@@ -152,7 +152,7 @@ def shapes(tier):
     if tier == 'thorough':
         node_pairs = [(a, b) for a in pres_all for b in pres_all]
     for pa, pb in node_pairs:
-        out.append(dict(part='pair', kinds=('node', 'node'), pres=(pa, pb), L=L))
+        out.append(dict(part='pair', kinds=('node', 'node'), pres=(pa, pb), L=min(L, 24)))
     out.append(dict(part='pair', kinds=('edge', 'edge'), pres=({}, {}), L=min(L, 8)))
     out.append(dict(part='pair', kinds=('node_tombstone', 'node_tombstone'), pres=({}, {}), L=min(L, 8)))
     out.append(dict(part='pair', kinds=('edge_tombstone', 'edge_tombstone'), pres=({}, {}), L=min(L, 8)))
@@ -234,11 +234,13 @@ def explore_single(ctx, shape, tier, report):
     ctx.explore(path)
 
 
-def solve_collision(ctx, cond, sa, sb, quick_ms=15000):
+def solve_collision(ctx, cond, sa, sb, quick_ms=None):
     """decide pc AND cond (a stream equation).  z3's sequence solver sometimes stalls on satisfiable stream
     equations with many free lengths: after a short attempt, length vectors are enumerated (an integer
     problem) and the equation is decided with the lengths fixed.  Returns a model, None (unsat), or raises
     Inconclusive."""
+    if quick_ms is None:
+        quick_ms = 15000 if ctx.timeout_ms <= 60000 else 90000
     ctx.solver.set('timeout', quick_ms)
     try:
         try:
@@ -267,7 +269,18 @@ def solve_collision(ctx, cond, sa, sb, quick_ms=15000):
             ls.add(c)
     ls.add(z3.Length(sa) == z3.Length(sb))
     tried = 0
-    while tried < 12 and ls.check() == z3.sat:
+    unknown = 0
+    while tried < 40:
+        r = ls.check()
+        if r == z3.unsat:
+            if unknown == 0:
+                # no length vector is left: the stream equation has no solution (the length constraints kept here are a
+                # subset of the path condition, so their unsatisfiability carries over)
+                ctx.stats.unsat += 1
+                return None
+            break
+        if r != z3.sat:
+            break
         tried += 1
         lm = ls.model()
         fix = [z3.Length(v) == lm.eval(z3.Length(v), model_completion=True) for v in lens]
@@ -275,11 +288,12 @@ def solve_collision(ctx, cond, sa, sb, quick_ms=15000):
             m = ctx.check_sat(z3.And(cond, *fix))
         except Inconclusive:
             ctx.stats.unknown -= 1
+            unknown += 1
             m = None
         if m is not None:
             return m
         ls.add(z3.Or(*[z3.Length(v) != lm.eval(z3.Length(v), model_completion=True) for v in lens]))
-    raise Inconclusive('stream equation not decided (sequence solver gave up and %d length vectors were refuted or timed out)' % tried)
+    raise Inconclusive('stream equation not decided (sequence solver gave up; %d length vectors tried, %d undecided)' % (tried, unknown))
 
 
 def differing(m, a, b):
